@@ -438,4 +438,47 @@ for _n in (1, 2, 3):
     SCENARIOS.append(Scenario(f"C14.graph_pattern.output_nodes[{_n} outputs]", _mk(_n),
                               [("onnxscript/rewriter/_pattern_ir.py", "GraphPattern.__init__"), ("onnxscript/rewriter/_pattern_ir.py", "_add_backward_slice")],
                               kind="bounded", max_paths=8000,
-                              trusted=["arbitrary-set-order model: list()/for over a native set forks over every permutation (sets of <= 4 elements)"]))
+                              trusted=["arbitrary-set-order model: list()/for over a native set forks over every permutation (sets of <= 4 elements; three representative orders beyond)"]))
+
+
+def s_record_contributing_values(ctx):
+    """_record_contributing_values(node, replacement): the provenance written into metadata_props (which IS serialized) is
+    the canonical text of the set of contributing names - the same string under every iteration order of the sets
+    involved; meta holds the set itself.  Run under the arbitrary-set-order model.
+    bounded: <= 3 inputs (absent / named / named with own provenance of <= 2 names), <= 2 new outputs."""
+    import onnx_ir as ir
+    from onnxscript.optimizer import _constant_folding as cf
+    I = Interp(ctx)
+    I.set_order_nondet = True
+    n_in = 1 + ctx.choose(3, "number of inputs")
+    ins, want = [], set()
+    for i in range(n_in):
+        k = ctx.choose(3, f"input {i}: absent / plain / with provenance")
+        if k == 0:
+            ins.append(None)
+            continue
+        v = ir.Value(name=["b", "a", "c"][i])
+        want.add(v.name)
+        if k == 2:
+            prov = {f"z{i}", "a"} if ctx.choose(2, f"provenance of input {i} overlaps") else {f"z{i}", f"y{i}"}
+            v.meta[cf.FOLDED_FROM_KEY] = set(prov)
+            want |= prov
+        ins.append(v)
+    node = ir.Node("", "Add", ins, num_outputs=1)
+    outs = [ir.Value(name="new0"), None, ir.Value(name="new1")][: 1 + ctx.choose(3, "number of new outputs")]
+    repl = cf.Replacement(outs, [])
+    I.call(cf._record_contributing_values, [node, repl])
+    for o in outs:
+        if o is None:
+            continue
+        ctx.check("C14.folding.provenance.metadata_text_is_canonical_under_every_set_iteration_order",
+                  o.metadata_props.get(cf.FOLDED_FROM_KEY) == repr(sorted(want)), CL_SEED)
+        ctx.check("C14.folding.provenance.meta_holds_the_set_of_contributing_names", o.meta.get(cf.FOLDED_FROM_KEY) == want, CL_SEED)
+    for v in ins:
+        if v is not None:
+            ctx.check("C14.folding.provenance.inputs_are_not_modified", cf.FOLDED_FROM_KEY not in v.metadata_props, CL_SEED)
+
+
+SCENARIOS.append(Scenario("C14.folding.provenance", s_record_contributing_values,
+                          [("onnxscript/optimizer/_constant_folding.py", "_record_contributing_values")], kind="bounded", max_paths=20000,
+                          trusted=["arbitrary-set-order model: list()/for over a native set forks over every permutation (sets of <= 4 elements; three representative orders beyond)"]))
